@@ -148,7 +148,7 @@ func c18Reader(rt *rapid.T, data []byte) (io.Reader, string) {
 
 func TestVerif_C18_RoundTrip(t *testing.T) {
 	acct := vacct.Get("C18")
-	vacct.RapidCheck(t, vacct.N(3000, 300000), func(rt *rapid.T) {
+	vacct.RapidCheck(t, vacct.N(3000, 3000000), func(rt *rapid.T) {
 		v := c18Variants[rapid.IntRange(0, len(c18Variants)-1).Draw(rt, "variant")]
 		limit := rapid.SampledFrom([]int{0, 1, 8, 64, 300, 2048, 20000}).Draw(rt, "limit")
 		n := rapid.IntRange(0, 20).Draw(rt, "n")
@@ -331,7 +331,7 @@ func TestVerif_C18_Hostile(t *testing.T) {
 	old := debug.SetGCPercent(-1)
 	defer debug.SetGCPercent(old)
 	hostile := []uint64{1 << 31, 1<<31 - 1, 1 << 32, 1<<32 - 1, 1 << 62, 1 << 63, 1<<64 - 1, 1 << 40}
-	vacct.RapidCheck(t, vacct.N(1500, 100000), func(rt *rapid.T) {
+	vacct.RapidCheck(t, vacct.N(1500, 1000000), func(rt *rapid.T) {
 		vi := rapid.IntRange(0, 2).Draw(rt, "variant")
 		v := c18Variants[vi]
 		limit := rapid.SampledFrom([]int{0, 1, 8, 64, 2048}).Draw(rt, "limit")
@@ -502,7 +502,7 @@ func c18Arbitrary(data []byte, limit int) (violation string) {
 
 func TestVerif_C18_Arbitrary(t *testing.T) {
 	acct := vacct.Get("C18")
-	vacct.RapidCheck(t, vacct.N(3000, 300000), func(rt *rapid.T) {
+	vacct.RapidCheck(t, vacct.N(3000, 3000000), func(rt *rapid.T) {
 		data := rapid.SliceOfN(rapid.Byte(), 0, 200).Draw(rt, "data")
 		limit := rapid.SampledFrom([]int{0, 8, 64, 2048}).Draw(rt, "limit")
 		if v := c18Arbitrary(data, limit); v != "" {
@@ -512,5 +512,65 @@ func TestVerif_C18_Arbitrary(t *testing.T) {
 		acct.Case(len(data) > 4, fmt.Sprintf("%d|%x", limit, data), func() any {
 			return map[string]any{"kind": "arbitrary-bytes", "limit": limit, "data_hex": fmt.Sprintf("%x", trunc(data, 48))}
 		}, "arbitrary")
+	})
+}
+
+// the differential body of the native fuzz target under rapid (quick and thorough)
+func TestVerif_C18_Differential(t *testing.T) {
+	acct := vacct.Get("C18")
+	vacct.RapidCheck(t, vacct.N(3000, 2000000), func(rt *rapid.T) {
+		limit := rapid.SampledFrom([]int{0, 8, 64, 2048}).Draw(rt, "limit")
+		var data []byte
+		frames := 0
+		// a stream made of frames with valid / hostile prefixes and bodies, then cut or extended
+		for i, n := 0, rapid.IntRange(0, 4).Draw(rt, "frames"); i < n; i++ {
+			vi := rapid.IntRange(0, 2).Draw(rt, "prefix")
+			body := rapid.OneOf(
+				rapid.Just([]byte{}),
+				rapid.Map(rapid.IntRange(0, max(0, limit)), func(k int) []byte {
+					b, _ := proto.Marshal(&protocoltypes.GroupEnvelope{Event: make([]byte, max(0, k-4))})
+					return b
+				}),
+				rapid.SliceOfN(rapid.Byte(), 0, 24),
+			).Draw(rt, "body")
+			l := uint64(len(body))
+			switch rapid.IntRange(0, 7).Draw(rt, "lie") {
+			case 0:
+				l++
+			case 1:
+				l = uint64(limit) + 1
+			}
+			switch vi {
+			case 0:
+				p := c18Uvarint(l)
+				if rapid.IntRange(0, 5).Draw(rt, "redundant") == 0 {
+					p[len(p)-1] |= 0x80
+					p = append(p, 0)
+				}
+				data = append(data, p...)
+			case 1:
+				data = binary.BigEndian.AppendUint32(data, uint32(l))
+			default:
+				data = binary.LittleEndian.AppendUint32(data, uint32(l))
+			}
+			data = append(data, body...)
+			frames++
+		}
+		if len(data) > 0 && rapid.Bool().Draw(rt, "cut") {
+			data = data[:rapid.IntRange(0, len(data)-1).Draw(rt, "at")]
+		}
+		if v := c18Differential(data, limit); v != "" {
+			acct.Violation("differential/"+v, "TestVerif_C18_Differential", map[string]any{"limit": limit, "data_hex": fmt.Sprintf("%x", data)})
+			rt.Fatalf("%s on %x (limit %d)", v, data, limit)
+		}
+		nt := false
+		for vi := 0; vi < 3; vi++ {
+			if len(c18RefParse(data, limit, vi)) > 0 {
+				nt = true
+			}
+		}
+		acct.Case(nt, fmt.Sprintf("diff|%d|%x", limit, trunc(data, 40)), func() any {
+			return map[string]any{"kind": "differential", "limit": limit, "data_hex": fmt.Sprintf("%x", trunc(data, 48))}
+		}, "differential", lbl(nt, "differential/reference-accepts-a-frame"))
 	})
 }
